@@ -51,6 +51,8 @@ type World struct {
 	QuiesceStarted bool
 	cfg     RunSpec
 	linkHook func(l *Link)
+	// mustLeave (C16): node/host:port pairs whose peer was dropped from its only list while connected
+	mustLeave map[string]bool
 	// PeriodicTraffic: the scenario has traffic that never ceases (health checks); settle periods are not extended
 	PeriodicTraffic bool
 	AllClosed bool
@@ -65,7 +67,7 @@ type World struct {
 }
 
 func newWorld(spec RunSpec) *World {
-	w := &World{Grid: time.Millisecond, Probes: map[string]int{}, Evals: map[string]int{}, callTag: map[string]*CallRec{}, cfg: spec}
+	w := &World{Grid: time.Millisecond, Probes: map[string]int{}, Evals: map[string]int{}, callTag: map[string]*CallRec{}, cfg: spec, mustLeave: map[string]bool{}}
 	w.Net = newNet(w)
 	w.wireOr = newWireOracle(w)
 	return w
